@@ -13,8 +13,25 @@ use mmtk::{AllocationSemantics, Mutator};
 use std::sync::atomic::Ordering;
 use vcommon::{mix, Rng, J};
 
+#[derive(Clone, Copy, PartialEq, Eq, Debug)]
+pub enum Bar {
+    None,
+    Object,
+    Satb,
+}
+
+pub fn active_barrier() -> Bar {
+    use mmtk::BarrierSelector;
+    match world().mmtk.get_plan().constraints().barrier {
+        BarrierSelector::NoBarrier => Bar::None,
+        BarrierSelector::ObjectBarrier => Bar::Object,
+        BarrierSelector::SATBBarrier => Bar::Satb,
+    }
+}
+
 pub struct Mut {
     pub idx: usize,
+    pub bar: Bar,
     pub rng: Rng,
     pub mutator: *mut Mutator<VerifVM>,
     pub roots: *mut [usize; NROOTS],
@@ -103,6 +120,7 @@ impl Mut {
         Mut {
             idx,
             rng: Rng::new(seed),
+            bar: active_barrier(),
             mutator: world::mutator_ptr(idx),
             roots: world::roots_ptr(idx),
             max_default,
@@ -224,9 +242,16 @@ impl Mut {
         }
         let slot = SimpleSlot::from_address(unsafe { Address::from_usize(slot_addr(start_of(src_addr), i)) });
         let tgt = if tgt_addr == 0 { None } else { Some(objref(tgt_addr)) };
-        memory_manager::object_reference_write_pre(self.m(), objref(src_addr), slot, tgt);
+        // A binding calls the barrier(s) the plan's BarrierSelector asks for: the SATB barrier is a
+        // pre-write barrier (its post-write half is unimplemented), the object-remembering
+        // barrier a post-write barrier.
+        if self.bar != Bar::Object {
+            memory_manager::object_reference_write_pre(self.m(), objref(src_addr), slot, tgt);
+        }
         unsafe { wr(slot_addr(start_of(src_addr), i), tgt_addr as u64) };
-        memory_manager::object_reference_write_post(self.m(), objref(src_addr), slot, tgt);
+        if self.bar != Bar::Satb {
+            memory_manager::object_reference_write_post(self.m(), objref(src_addr), slot, tgt);
+        }
         let o = sh.objs.get_mut(&src_id).unwrap();
         o.fields[i] = tgt_id;
         let old_src = o.survived >= 1;
@@ -334,12 +359,25 @@ impl Mut {
             90..=94 => SEM_NONMOVING,
             _ => SEM_IMMORTAL,
         };
+        if sem == SEM_NONMOVING && cfg!(feature = "var_a") && cfg.plan == "MarkCompact" && cfg.scenario != "nonmoving-markcompact" {
+            // KNOWN FINDING (C01): MarkCompact's two transitive closures are not supported by the
+            // Immix non-moving space of the default feature set; only the dedicated scenario
+            // exercises that combination.
+            sem = SEM_DEFAULT;
+        }
         if (sem == SEM_NONMOVING && cfg.off("nonmoving")) || (sem == SEM_LOS && cfg.off("los")) || (sem == SEM_IMMORTAL && cfg.off("immortal")) {
             sem = SEM_DEFAULT;
         }
         let mut size = if sem == SEM_LOS { gen_los_size(&mut self.rng, self.max_default) } else { gen_size(&mut self.rng, self.max_default) };
         if sem == SEM_IMMORTAL {
             size = size.min(512); // immortal objects are never reclaimed: keep them small
+        }
+        if sem == SEM_DEFAULT && cfg.plan == "MarkSweep" {
+            // KNOWN FINDING (C35): a request whose aligned size exceeds the largest size class
+            // indexes past the bin table; keep gcsim programs away from that input class (it is
+            // decided by the C35 unit monitor).
+            let pad = (1usize << align_log) - 8;
+            size = size.min(self.max_default - pad);
         }
         if sem == SEM_NONMOVING {
             size = size.min(2048);
@@ -533,12 +571,16 @@ impl Mut {
         let tell = self.rng.chance(1, 2);
         let src = unsafe { crate::vm::VSlice { start: Address::from_usize(slot_addr(start_of(sa), oa)), end: Address::from_usize(slot_addr(start_of(sa), oa + len)), obj: if tell { Some(objref(sa)) } else { None } } };
         let dst = unsafe { crate::vm::VSlice { start: Address::from_usize(slot_addr(start_of(sb), ob)), end: Address::from_usize(slot_addr(start_of(sb), ob + len)), obj: if tell { Some(objref(sb)) } else { None } } };
-        memory_manager::memory_region_copy_pre(self.m(), src.clone(), dst.clone());
+        if self.bar != Bar::Object {
+            memory_manager::memory_region_copy_pre(self.m(), src.clone(), dst.clone());
+        }
         for k in 0..len {
             let v = unsafe { rd(slot_addr(start_of(sa), oa + k)) };
             unsafe { wr(slot_addr(start_of(sb), ob + k), v) };
         }
-        memory_manager::memory_region_copy_post(self.m(), src, dst);
+        if self.bar != Bar::Satb {
+            memory_manager::memory_region_copy_post(self.m(), src, dst);
+        }
         let vals: Vec<u64> = sh.objs[&ia].fields[oa..oa + len].to_vec();
         let o = sh.objs.get_mut(&ib).unwrap();
         o.fields[ob..ob + len].copy_from_slice(&vals);
